@@ -42,6 +42,12 @@ func strArg(v Value) (string, bool) {
 	if !ok || s.Code != nil {
 		return "", false
 	}
+	if s.Num != nil {
+		if s.Num.IsConst() {
+			return strconv.FormatInt(s.Num.SInt(), 10), true
+		}
+		return "", false
+	}
 	return s.S, true
 }
 
@@ -349,6 +355,12 @@ func registerIntercepts(e *Engine) {
 		a, ok1 := strArg(args[0])
 		b, ok2 := strArg(args[1])
 		d, ok3 := strArg(args[2])
+		if ok1 && ok2 && !ok3 && a == b {
+			return one(st, args[2]) // the whole argument is the placeholder
+		}
+		if ok1 && ok2 && !strings.Contains(a, b) {
+			return one(st, args[0])
+		}
 		if !ok1 || !ok2 || !ok3 {
 			return one(st, Str{S: "<replaceall>"})
 		}
@@ -371,7 +383,50 @@ func registerIntercepts(e *Engine) {
 		if t.IsConst() {
 			return one(st, Str{S: strconv.Itoa(int(t.SInt()))})
 		}
-		return one(st, Str{S: "<itoa>"})
+		return one(st, Str{Num: t})
+	})
+	// strconv.ParseFloat / Atoi: concrete text natively; the decimal rendering of an integer term
+	// parses back to that integer; an opaque text (command output) parses to any float64
+	// including NaN and +-Inf, or fails.
+	e.reg("strconv.ParseFloat", func(c *CallCtx, st *State, args []Value) []Outcome {
+		s := args[0].(Str)
+		if s.Num != nil {
+			return one(st, Tuple{smt.SBVToFP(s.Num, smt.FP64), nilErr})
+		}
+		if txt, ok := strArg(s); ok && !strings.HasPrefix(txt, "<") {
+			f, err := strconv.ParseFloat(txt, 64)
+			if err != nil {
+				return one(st, Tuple{smt.FPC(f), c.E.newError(st, err.Error())})
+			}
+			return one(st, Tuple{smt.FPC(f), nilErr})
+		}
+		bad := st.Clone()
+		v := c.E.nondet(st, "parsefloat", smt.FP64)
+		return []Outcome{{St: st, Ret: Tuple{v, nilErr}}, {St: bad, Ret: Tuple{smt.FPC(0), c.E.newError(bad, "strconv.ParseFloat: invalid syntax")}}}
+	})
+	e.reg("strconv.Atoi", func(c *CallCtx, st *State, args []Value) []Outcome {
+		s := args[0].(Str)
+		if s.Num != nil {
+			return one(st, Tuple{s.Num, nilErr})
+		}
+		if txt, ok := strArg(s); ok && !strings.HasPrefix(txt, "<") {
+			i, err := strconv.Atoi(txt)
+			if err != nil {
+				return one(st, Tuple{smt.IntC(int64(i)), c.E.newError(st, err.Error())})
+			}
+			return one(st, Tuple{smt.IntC(int64(i)), nilErr})
+		}
+		bad := st.Clone()
+		v := c.E.nondet(st, "atoi", smt.BV64)
+		return []Outcome{{St: st, Ret: Tuple{v, nilErr}}, {St: bad, Ret: Tuple{smt.IntC(0), c.E.newError(bad, "strconv.Atoi: invalid syntax")}}}
+	})
+	// PidLoop.Loop: real body unless the harness asked for a havoc of its result
+	e.reg("(*"+utilPkg+".PidLoop).Loop", func(c *CallCtx, st *State, args []Value) []Outcome {
+		cell := c.E.namedCell(st, "havoc:pid.loop", func() Value { return smt.False })
+		if st.heap[cell].(*smt.Term).IsTrue() {
+			return one(st, c.E.nondet(st, "pid.loop", smt.FP64))
+		}
+		return c.E.execFuncFV(st, c.Fn, args, nil)
 	})
 	joinFn := func(join func(...string) string) Intercept {
 		return func(c *CallCtx, st *State, args []Value) []Outcome {
